@@ -216,6 +216,13 @@ def cross_ro():
         "PiecewiseConvex.__add__ foreign": lambda A, B, c: rsome.maxof(A["y"], 1) + B["y"],
         "pexp foreign scale": lambda A, B, c: rsome.pexp(A["y"], B["y"]) <= 1,
         "DecRule.adapt": lambda A, B, c: A["ld"].adapt(B["z"]),
+        # the same entry points on an object that has already been used legitimately (checks must not be
+        # tied to first use / initialisation)
+        "DecRule.adapt (after own adapt)": lambda A, B, c: (A["ld"].adapt(A["z"][0]), A["ld"].adapt(B["z"][1])),
+        "DecRuleSub.adapt (after own adapt)": lambda A, B, c: (A["ld"][0].adapt(A["z"][0]), A["ld"][1].adapt(B["z"][1])),
+        "RoConstr.forall (second call)": lambda A, B, c: (lambda k: (k.forall(A["z"] <= 1), k.forall(B["z"] <= 1))[1])(A["x"] @ A["z"] <= 1),
+        "Model.st (after own st)": lambda A, B, c: (A["m"].st(A["x"] >= 0), A["m"].st(B["x"].sum() <= 1)),
+        "Affine.__add__ (chained)": lambda A, B, c: (A["x"] + A["y"]) + B["y"],
         "DecRuleSub.adapt": lambda A, B, c: A["ld"][0].adapt(B["z"][1]),
         "DecRule + foreign": lambda A, B, c: A["ld"] + B["x"],
         "IPCone": lambda A, B, c: lp.IPCone(A["y"], B["x"].to_affine(), [1, 1]),
@@ -271,6 +278,10 @@ def cross_dro():
         "Model.minsup foreign ambiguity": lambda A, B, c: (A["m"].minsup(rsome.E(A["x"] @ A["z"]), B["m"].ambiguity()),
                                                            A["m"].st(A["x"] >= 0), A["m"].do_math()),
         "DecVar.adapt foreign rvar": lambda A, B, c: A["x"].adapt(B["z"]),
+        "DecVar.adapt foreign rvar (after own adapt)": lambda A, B, c: (A["x"][0].adapt(A["z"][0]), A["x"][1].adapt(B["z"][1])),
+        "Scen.suppset foreign (after own)": lambda A, B, c: (lambda f: (f.suppset(A["z"] <= 1), f[0].suppset(B["z"] <= 1)))(A["m"].ambiguity()),
+        "Scen.exptset foreign (after own)": lambda A, B, c: (lambda f: (f.exptset(rsome.E(A["z"]) == 0), f[0].exptset(rsome.E(B["z"]) <= 1)))(A["m"].ambiguity()),
+        "Model.st (after own st)": lambda A, B, c: (A["m"].st(A["x"] >= 0), A["m"].st(B["x"].sum() <= 1)),
         "DecVarSub.adapt foreign rvar": lambda A, B, c: A["x"][0].adapt(B["z"][1]),
         "DecAffine.__add__ foreign": lambda A, B, c: A["x"] + B["x"],
         "DecAffine.__mul__ foreign rand": lambda A, B, c: A["x"] * B["z"],
